@@ -95,6 +95,10 @@ func execC08(caseText string) string {
 		cmpf = func(a, b kt) int { return int(a.K - b.K) }
 	case "mergeS":
 		cmpf = func(a, b kt) int { return 7 * cmp.Compare(a.K, b.K) }
+	case "mergeN", "mergeR":
+		// nested: the first two (mergeN) / last two (mergeR) inputs are merged first and that merged stream is one input of
+		// the outer merge - a merged stream is itself a sorted stream, and it is exhausted / re-polled while the others go on
+		cmpf = func(a, b kt) int { return cmp.Compare(a.K, b.K) }
 	case "mergeA":
 		// the inputs are passed as a slice (inputs...) which the caller re-uses for other streams afterwards: the merged
 		// stream must still be the merge of the streams it was built from
@@ -109,6 +113,14 @@ func execC08(caseText string) string {
 			return "bad-case"
 		}
 		streams = append(streams, stream.Just(l...))
+	}
+	if h := strings.TrimSpace(parts[0]); (h == "mergeN" || h == "mergeR") && len(streams) >= 2 {
+		if h == "mergeN" {
+			streams = append([]stream.Stream[kt]{stream.MergeSortedStreams(cmpf, streams[0], streams[1])}, streams[2:]...)
+		} else {
+			n := len(streams)
+			streams = append(streams[:n-2:n-2], stream.MergeSortedStreams(cmpf, streams[n-2], streams[n-1]))
+		}
 	}
 	merged := stream.MergeSortedStreams(cmpf, streams...)
 	if strings.TrimSpace(parts[0]) == "mergeA" {
@@ -151,6 +163,12 @@ func emitC08(c *Ctx, ins [][]kt) {
 	}
 	if c08n%16 == 8 {
 		head = "mergeZ"
+	}
+	if c08n%16 == 2 && len(ins) >= 2 {
+		head = "mergeN"
+	}
+	if c08n%16 == 10 && len(ins) >= 2 {
+		head = "mergeR"
 	}
 	c.Case(nonEmpty >= 2, strings.Join(append([]string{head}, parts...), " | "))
 	_ = total
